@@ -112,6 +112,13 @@ pub mod k {
     pub const DGRAM_ALT: i128 = 78; // odd-numbered datagrams are small (100 bytes)
     pub const EARLY_STOP: i128 = 79; // client stops the receive half of each bidi stream right after opening it
     pub const NO_REDO: i128 = 80; // after a 0-RTT rejection the client does not repeat its workload
+    pub const HOSTILE_TP: i128 = 82; // >0: catalogue entry of hostile_tp::mutate applied to the peer's transport parameters as seen by the victim
+    pub const HOSTILE_TP_SIDE: i128 = 83; // victim endpoint (0 client, 1 server); pair 0 (or the first real pair of a 0-RTT scenario) is attacked
+    pub const CLIENT_IDLE_MS: i128 = 84; // >=0: the client's own max_idle_timeout (0 = none) instead of IDLE_MS
+    pub const SERVER_IDLE2_MS: i128 = 85; // >=0: max_idle_timeout of the server's configuration from phase 2 of a 0-RTT scenario on (0 = none)
+    pub const FORGET_AT: i128 = 86; // us: the server process restarts (fresh Endpoint, same reset key and server config): every connection state is lost
+    pub const MIGRATE_SILENT: i128 = 87; // 1: the client is not told about its address change (NAT rebinding): no local_address_changed()
+    pub const RETRY2: i128 = 88; // 1: an on-path attacker (a second server endpoint with another token key) answers the client's token-bearing Initial with its own, well-formed Retry, delivered before the real server's reply
     pub const DGRAM_START: i128 = 81; // us: application datagrams are not sent before this instant
     pub const RECONNECT: i128 = 70; // open this many further client connections, one per drained connection (slot reuse)
 }
@@ -318,6 +325,30 @@ pub struct World {
     drop_run: [i128; 2],
     injected: u64,
     app_wakes: Vec<u64>,
+    tp: Option<Arc<crate::hostile_tp::TpShared>>,
+    restart_cfg: Option<Arc<EndpointConfig>>,
+    att_ep: Option<Endpoint>,
+    retry2_done: bool,
+}
+
+/// long-header Initial (QUIC v1) whose token is not empty
+fn initial_has_token(d: &[u8]) -> bool {
+    if d.len() < 7 || d[0] & 0xF0 != 0xC0 {
+        return false;
+    }
+    let mut p = 5;
+    let dl = d[p] as usize;
+    p += 1 + dl;
+    if p >= d.len() {
+        return false;
+    }
+    let sl = d[p] as usize;
+    p += 1 + sl;
+    if p >= d.len() {
+        return false;
+    }
+    // token length varint: non-zero
+    d[p] != 0
 }
 
 fn ecn_code(e: Option<EcnCodepoint>) -> i128 {
@@ -376,7 +407,10 @@ impl World {
     fn transport(&self, server: bool) -> TransportConfig {
         let p = &self.p;
         let mut t = TransportConfig::default();
-        let idle = p.get(k::IDLE_MS, 10_000);
+        let mut idle = p.get(k::IDLE_MS, 10_000);
+        if !server && p.get(k::CLIENT_IDLE_MS, -1) >= 0 {
+            idle = p.get(k::CLIENT_IDLE_MS, -1);
+        }
         if idle == 0 {
             t.max_idle_timeout(None);
         } else {
@@ -468,6 +502,10 @@ impl World {
             drop_run: [0, 0],
             injected: 0,
             app_wakes: Vec::new(),
+            tp: None,
+            restart_cfg: None,
+            att_ep: None,
+            retry2_done: false,
             p,
         };
         let (cert, key) = load_cert();
@@ -482,10 +520,38 @@ impl World {
         }));
         let tk = quinn_proto_token_key(seed);
         scfg.token_key(tk);
+        let tp_kind = w.p.get(k::HOSTILE_TP, 0);
+        if tp_kind > 0 {
+            let victim = w.p.get(k::HOSTILE_TP_SIDE, 0).clamp(0, 1);
+            let target = if w.p.get(k::ZERO_RTT, 0) > 0 { 1 } else { 0 };
+            let sh = Arc::new(crate::hostile_tp::TpShared {
+                kind: tp_kind,
+                seed,
+                target_idx: target,
+                cur_idx: std::sync::atomic::AtomicI64::new(-1),
+                epoch: std::sync::atomic::AtomicI64::new(0),
+                log: Mutex::new(Vec::new()),
+            });
+            scfg.crypto = Arc::new(crate::hostile_tp::HServer { inner: scfg.crypto.clone(), m: sh.clone(), attack: victim == 1 });
+            w.tp = Some(sh);
+        }
         let scfg = Arc::new(scfg);
         let mut roots = quinn_proto::rustls::RootCertStore::empty();
         roots.add(certd).unwrap();
-        let mut ccfg = ClientConfig::with_root_certificates(Arc::new(roots)).unwrap();
+        let mut ccfg = if let Some(sh) = &w.tp {
+            use quinn_proto::rustls;
+            let mut rc = rustls::ClientConfig::builder_with_provider(Arc::new(rustls::crypto::ring::default_provider()))
+                .with_protocol_versions(&[&rustls::version::TLS13])
+                .unwrap()
+                .with_root_certificates(roots)
+                .with_no_client_auth();
+            rc.enable_early_data = true;
+            let q = quinn_proto::crypto::rustls::QuicClientConfig::try_from(rc).unwrap();
+            let victim = w.p.get(k::HOSTILE_TP_SIDE, 0).clamp(0, 1);
+            ClientConfig::new(Arc::new(crate::hostile_tp::HClient { inner: Arc::new(q), m: sh.clone(), attack: victim == 0 }))
+        } else {
+            ClientConfig::with_root_certificates(Arc::new(roots)).unwrap()
+        };
         ccfg.transport_config(Arc::new(w.transport(false)));
         w.client_cfg = Some(ccfg);
         w.server_cfg = Some(scfg.clone());
@@ -508,6 +574,23 @@ impl World {
             c.cid_generator(Arc::new(move || Box::new(SeqCidGen { next: 0, len: cid_len, lifetime: lt, tag }) as Box<dyn ConnectionIdGenerator>));
             Arc::new(c)
         };
+        // configuration of the server after a restart: same reset key (same seed and tag for the
+        // key bytes), another CID generator tag so that new CIDs do not collide with forgotten ones
+        w.restart_cfg = Some({
+            let c = mk_ep_cfg(0x5E, seed ^ 0xABCD);
+            let mut c2 = (*c).clone();
+            let lt = if life > 0 { Some(Duration::from_millis(life as u64)) } else { None };
+            c2.cid_generator(Arc::new(move || Box::new(SeqCidGen { next: 0, len: cid_len, lifetime: lt, tag: 0x7E }) as Box<dyn ConnectionIdGenerator>));
+            Arc::new(c2)
+        });
+        if w.p.get(k::RETRY2, 0) == 1 {
+            let (cert, key) = load_cert();
+            let certd = quinn_proto::rustls::pki_types::CertificateDer::from(cert);
+            let keyd = quinn_proto::rustls::pki_types::PrivateKeyDer::Pkcs8(key.into());
+            let mut acfg = ServerConfig::with_single_cert(vec![certd], keyd).unwrap();
+            acfg.token_key(quinn_proto_token_key(seed ^ 0xDEAD_BEEF));
+            w.att_ep = Some(Endpoint::new(mk_ep_cfg(0xA7, seed ^ 0x7777), Some(Arc::new(acfg)), true));
+        }
         let caddr = SocketAddr::new(IpAddr::V4(Ipv4Addr::new(10, 0, 0, 1)), 40000);
         let saddr = SocketAddr::new(IpAddr::V4(Ipv4Addr::new(10, 0, 0, 2)), 4433);
         let allow_mtud = true;
@@ -518,6 +601,15 @@ impl World {
         w.addr_id(caddr);
         w.addr_id(saddr);
         w
+    }
+
+    fn apply_idle2(p: &P, t: &mut TransportConfig) {
+        let v = p.get(k::SERVER_IDLE2_MS, -1);
+        if v == 0 {
+            t.max_idle_timeout(None);
+        } else if v > 0 {
+            t.max_idle_timeout(Some(IdleTimeout::try_from(Duration::from_millis(v as u64)).unwrap()));
+        }
     }
 
     fn new_app(&self, is_client: bool, idx: usize) -> App {
@@ -563,7 +655,19 @@ impl World {
         // the pair identity travels in the client-chosen initial DCID
         let seedb = self.p.get(k::SEED, 1) as u8;
         cfg.initial_dst_cid_provider(Arc::new(move || ConnectionId::new(&[0xD0, idx as u8, seedb, 2, 3, 4, 5, 6])));
+        if let Some(sh) = &self.tp {
+            sh.cur_idx.store(idx as i64, std::sync::atomic::Ordering::SeqCst);
+        }
         let (ch, conn) = self.eps[0].ep.connect(now, cfg, saddr, "localhost").unwrap();
+        if let Some(sh) = &self.tp {
+            // outcomes logged inside connect concern the parameters remembered with the session
+            // ticket (0-RTT): informational WORLD record 10, not an expectation
+            let l: Vec<_> = sh.log.lock().unwrap().drain(..).collect();
+            for (side, i, kind, ok) in l {
+                self.trace.push(vec![13, self.now as i128, 10, side, i, kind, ok]);
+            }
+            sh.epoch.fetch_add(1, std::sync::atomic::Ordering::SeqCst);
+        }
         let mut app = self.new_app(true, idx);
         if warmup {
             app.warmup = true;
@@ -616,6 +720,27 @@ impl World {
         let garbage = p.get(k::GARBAGE, 0);
         if self.rng.chance((replay + spoof + garbage).min(500)) && self.stored.len() < 64 {
             self.stored.push((src, dst, data.clone(), origin));
+        }
+        if src_ep == 0 && !self.retry2_done && self.att_ep.is_some() && initial_has_token(&data) {
+            // the attacker sees the client's second Initial (it carries the Retry token) and answers
+            // with a Retry of its own: correct integrity tag, spoofed from the server's address,
+            // faster than the real server
+            self.retry2_done = true;
+            let now_i = self.inst(self.now);
+            let mut buf = Vec::new();
+            let att = self.att_ep.as_mut().unwrap();
+            if let Some(DatagramEvent::NewConnection(incoming)) = att.handle(now_i, src, None, None, BytesMut::from(&data[..]), &mut buf) {
+                if incoming.may_retry() {
+                    if let Ok(tr) = att.retry(incoming, &mut buf) {
+                        let d = buf[..tr.size].to_vec();
+                        self.seq += 1;
+                        let sz = d.len() as i128;
+                        self.net.push(Pkt { at: self.now + dmin / 2 + 1, seq: self.seq, src: dst, dst: src, ecn: None, data: d, origin: -2, kind: 7 });
+                        self.trace.push(vec![9, t, idx as i128, 7, did, sid, sz]);
+                        self.trace.push(vec![13, t, 12, sz]);
+                    }
+                }
+            }
         }
         let fair = self.p.get(k::FAIR_RUN, 0);
         let mut lose = self.rng.chance(loss);
@@ -893,6 +1018,9 @@ impl World {
                 self.trace.push(vec![2, t, epi as i128, sid, size, 1, ridx, 0, origin, kind, hflags]);
                 if let Some(cs) = self.eps[epi].conns.get_mut(&ch.0) {
                     cs.conn.handle_event(ev);
+                    // one probe per handled datagram: several datagrams may be due at one instant and
+                    // the monitors explain every state change as ONE step
+                    self.probe(epi, ch.0, None);
                 } else {
                     self.trace.push(vec![11, t, epi as i128, -3, 1]); // routed to unknown/forgotten handle
                 }
@@ -915,7 +1043,12 @@ impl World {
                     let b = buf.clone();
                     self.put_on_wire(epi, &tr, &b, -1);
                 } else {
-                    match self.eps[epi].ep.accept(incoming, now, &mut buf, None) {
+                    if let Some(sh) = &self.tp {
+                        sh.cur_idx.store(new_idx as i64, std::sync::atomic::Ordering::SeqCst);
+                    }
+                    let accepted = self.eps[epi].ep.accept(incoming, now, &mut buf, None);
+                    self.drain_tp_log();
+                    match accepted {
                         Ok((ch, conn)) => {
                             // a replayed Initial may open a second attempt under the same pair
                             // identity: later incarnations get index pair + 1000 * k
@@ -932,7 +1065,12 @@ impl World {
                             self.eps[epi].conns.insert(ch.0, ConnSt { conn, app, wake_at: None, last_deadline: None, drained: false, conn_index: idx });
                         }
                         Err(e) => {
-                            self.trace.push(vec![3, t, epi as i128, -1, 22, 0]);
+                            let (a, code) = match &e.cause {
+                                ConnectionError::TransportError(te) => (2, u64::from(te.code) as i128),
+                                ConnectionError::ConnectionClosed(cc) => (3, u64::from(cc.error_code) as i128),
+                                _ => (0, 0),
+                            };
+                            self.trace.push(vec![3, t, epi as i128, -1, 22, 0, a, code, new_idx as i128]);
                             if let Some(tr) = e.response {
                                 let did_ = self.addr_id_of(tr.destination);
                     self.trace.push(vec![1, t, epi as i128, -1, did_, tr.size as i128, 0, 0, 2]);
@@ -1437,11 +1575,29 @@ impl World {
         let ra = cs.conn.remote_address();
         let rid = self.addr_id(ra);
         let last = self.trace.len();
+        let extra = [
+            st.frame_tx.path_challenge as i128,
+            st.frame_tx.path_response as i128,
+            st.frame_tx.ping as i128,
+            st.frame_rx.path_challenge as i128,
+            st.frame_rx.path_response as i128,
+        ];
         self.trace.push(v);
         self.trace[last].push(rid);
+        self.trace[last].extend(extra);
+    }
+
+    fn drain_tp_log(&mut self) {
+        if let Some(sh) = &self.tp {
+            let l: Vec<_> = sh.log.lock().unwrap().drain(..).collect();
+            for (side, idx, kind, ok) in l {
+                self.trace.push(vec![13, self.now as i128, 9, side, idx, kind, ok]);
+            }
+        }
     }
 
     fn drive_conn(&mut self, epi: usize, chk: usize) {
+        self.drain_tp_log();
         let gso = self.p.get(k::GSO, 1).max(1) as usize;
         let oidx = self.eps[epi].conns[&chk].conn_index as i128;
         let mut rounds = 0;
@@ -1547,6 +1703,7 @@ impl World {
         let mut replaced = 0usize;
         let mut keyupd = [false, false];
         let mut rwnd_done = false;
+        let mut forgot = false;
         let mut mtu_changed = false;
         let mut hostile_done = false;
         let mut end_reason = 0;
@@ -1584,7 +1741,7 @@ impl World {
                 }
                 upd(1_000_000);
             }
-            for key in [k::MIGRATE_AT, k::MIGRATE2_AT, k::KEYUPD_C, k::KEYUPD_S, k::CLOSE_AT, k::NEW_RWND_AT, k::LINK_MTU_AT, k::HOSTILE_AT] {
+            for key in [k::MIGRATE_AT, k::MIGRATE2_AT, k::KEYUPD_C, k::KEYUPD_S, k::CLOSE_AT, k::NEW_RWND_AT, k::LINK_MTU_AT, k::HOSTILE_AT, k::FORGET_AT] {
                 let v = self.p.get(key, 0);
                 if v > 0 && v as u64 > self.now {
                     upd(v as u64);
@@ -1615,6 +1772,7 @@ impl World {
                     let keyd = quinn_proto::rustls::pki_types::PrivateKeyDer::Pkcs8(key.into());
                     let mut scfg = ServerConfig::with_single_cert(vec![certd], keyd).unwrap();
                     let mut tcfg = self.transport(true);
+                    Self::apply_idle2(&self.p, &mut tcfg);
                     let srw = self.p.get(k::SERVER_RWND, 0);
                     if srw > 0 {
                         tcfg.receive_window(VarInt::from_u64(srw as u64).unwrap());
@@ -1626,6 +1784,14 @@ impl World {
                         base: std::time::UNIX_EPOCH + Duration::from_secs(1_700_000_000),
                         now_us: self.now_shared.clone(),
                     }));
+                    self.eps[1].ep.set_server_config(Some(Arc::new(scfg)));
+                }
+                if zero_rtt == 1 && self.p.get(k::SERVER_IDLE2_MS, -1) >= 0 {
+                    // same TLS configuration (tickets stay valid, 0-RTT is accepted), new transport parameters
+                    let mut scfg = (**self.server_cfg.as_ref().unwrap()).clone();
+                    let mut tcfg = self.transport(true);
+                    Self::apply_idle2(&self.p, &mut tcfg);
+                    scfg.transport_config(Arc::new(tcfg));
                     self.eps[1].ep.set_server_config(Some(Arc::new(scfg)));
                 }
                 self.trace.push(vec![13, self.now as i128, 6, zero_rtt]);
@@ -1650,7 +1816,13 @@ impl World {
                 self.eps[0].addr = new;
                 let nid = self.addr_id(new);
                 self.trace.push(vec![13, self.now as i128, 1, nid]);
+                // MIGRATE_SILENT: a NAT rebinding - the client does not notice, so it neither pings nor
+                // switches to a fresh CID
+                let silent_move = self.p.get(k::MIGRATE_SILENT, 0) == 1;
                 for cs in self.eps[0].conns.values_mut() {
+                    if silent_move {
+                        continue;
+                    }
                     cs.conn.local_address_changed();
                 }
             }
@@ -1665,6 +1837,15 @@ impl World {
                     }
                     self.trace.push(vec![13, self.now as i128, 2, i as i128]);
                 }
+            }
+            let f_at = self.p.get(k::FORGET_AT, 0);
+            if f_at > 0 && !forgot && self.now as i128 >= f_at {
+                forgot = true;
+                let cfg = self.restart_cfg.clone().unwrap();
+                self.eps[1].ep = Endpoint::new(cfg, self.server_cfg.clone(), true);
+                self.eps[1].conns.clear();
+                self.eps[1].zombies.clear();
+                self.trace.push(vec![13, self.now as i128, 11, 1]);
             }
             let rw_at = self.p.get(k::NEW_RWND_AT, 0);
             if rw_at > 0 && !rwnd_done && self.now as i128 >= rw_at {
@@ -1739,6 +1920,7 @@ impl World {
                 }
             }
         }
+        self.drain_tp_log();
         // final summary per connection (live or zombie)
         let t = self.now as i128;
         for epi in 0..2 {
